@@ -49,6 +49,8 @@ class ABuf:
         elif isinstance(x, (list, tuple)):
             b = bytes(x)
             self.segs = [("L", b, 0, len(b))] if b else []
+        elif isinstance(x, AView):
+            self.segs = x.tobuf().segs
         else:
             raise Unsupported("ABuf(%s)" % type(x).__name__)
 
@@ -282,6 +284,83 @@ class ABuf:
         if all(s[0] == "D" for s in c):
             return [s[1] for s in c]
         return None
+
+
+class AView:
+    """memoryview over an abstract buffer: a live window [start, stop) into `base`."""
+
+    def __init__(self, base, start=0, stop=None):
+        if isinstance(base, AView):
+            start, stop = base._abs(start, stop)
+            base = base.base
+        if not isinstance(base, ABuf):
+            raise Unsupported("memoryview(%s)" % type(base).__name__)
+        self.base, self.start, self.stop = base, start, stop
+
+    def _abs(self, a, b):
+        """Absolute window for the sub-slice [a, b) of this view."""
+        n = self.size()
+        a = 0 if a is None else a
+        b = n if b is None else b
+        if tb(a < 0):
+            a = n + a
+        if tb(b < 0):
+            b = n + b
+        if tb(a < 0):
+            a = 0
+        if tb(b > n):
+            b = n
+        if tb(a > b):
+            a = b
+        return self.start + a, self.start + b
+
+    def tobuf(self):
+        return self.base[self.start:self.stop]
+
+    tobytes = tobuf
+
+    def size(self):
+        total = self.base.size()
+        stop = total if self.stop is None or tb(self.stop > total) else self.stop
+        return stop - self.start if tb(stop > self.start) else 0
+
+    __symlen__ = size
+    nbytes = property(size)
+
+    def __len__(self):
+        r = self.size()
+        return r if isinstance(r, int) else r.__index__()
+
+    def __getitem__(self, sl):
+        if not isinstance(sl, slice) or sl.step is not None:
+            raise Unsupported("memoryview index")
+        a, b = self._abs(sl.start, sl.stop)
+        return AView(self.base, a, b)
+
+    def write_prefix(self, data):
+        """Replace the first len(data) bytes of the window (readinto)."""
+        n = data.size()
+        head = self.base[:self.start]
+        tail = self.base[self.start + n:]
+        self.base.segs = head.segs + data.segs + tail.segs
+
+    def __eq__(self, o):
+        return self.tobuf() == (o.tobuf() if isinstance(o, AView) else o)
+
+    def __hash__(self):
+        return 23
+
+    def release(self):
+        pass
+
+    def __enter__(self):
+        return self
+
+    def __exit__(self, *a):
+        pass
+
+    def __bool__(self):
+        return tb(self.size() != 0)
 
 
 def canon_eq(a, b):
